@@ -343,3 +343,16 @@ mod tests {
         );
     }
 }
+
+#[cfg(vibrato_verif)]
+impl TrainerConfig {
+    /// Verification hook: the three rewriters of a `rewrite.def`.
+    pub(crate) fn verif_parse_rewrite_config<R>(
+        rdr: R,
+    ) -> Result<(FeatureRewriter, FeatureRewriter, FeatureRewriter)>
+    where
+        R: Read,
+    {
+        Self::parse_rewrite_config(rdr)
+    }
+}
